@@ -89,3 +89,11 @@ func init() {
 	propSpecs["C13"] = &PropSpec{ID: "C13", Roots: append(append([]string{}, readOnly...), "(*fixedHeader).ReadRemaining", "ReadPacket"), Prepare: prepareC11, Extra: scanPackage,
 		Note: "a data race needs a write to memory shared between goroutines: " + note + "; ReadPacket writes only to objects it allocates (freshness postcondition) and to the caller's distinct stream. Under the Go memory model operations without writes to shared memory are race free and each goroutine's run equals a sequential run. No schedule is executed and the race detector is not used"}
 }
+
+func init() {
+	propSpecs["C18"] = &PropSpec{ID: "C18", Roots: []string{"(*Connect).String", "(*Connect).dump", "(*Publish).dump", "(*UserProperties).dump"},
+		Secrets:     []string{"p.username", "p.password"},
+		SecretRecv:  "*mq.Connect",
+		ForceInline: []string{"(*Connect).fill"},
+		Note: "information flow as proof obligations: the bytes of the user name and of the password are marked secret in a ghost taint map that moves with bulk copies; String and dump of CONNECT (with the nested will and the user properties verified in place) are proved never to read a secret byte directly (so no value or branch can depend on one) and never to hand a secret byte to fmt or to the writer - lengths and emptiness remain observable. Two packets that differ only in equally long credential bytes therefore produce the same calls with the same arguments"}
+}
